@@ -24,7 +24,7 @@ EXPLANATION = (
     "of the arguments across the Python / Cython / C boundary against the real C prototype.")
 NOT_DECIDED = ["quadrature accuracy of the golden-spiral point set (numerical)", "analytic cap areas of overlapping spheres (numerical)"]
 ASSUMPTIONS = ["documented: area of an isolated atom = 4*pi*(r+probe)^2; unselected atoms / residues without selected atoms are reported as -1"]
-FLOORS = {"C13-R1": 1, "C13-R2": 20, "C13-R3": 2, "C13-R4": 50, "C13-R5": 4}
+FLOORS = {"C13-R1": 1, "C13-R2": 20, "C13-R3": 2, "C13-R4": 50, "C13-R5": 3}
 
 SP = "mdtraj/geometry/sasa.py"
 SC = "mdtraj/geometry/src/sasa.cpp"
@@ -57,56 +57,14 @@ def check(ctx):
     from .c05 import no_foreign_attribute_stores
     no_foreign_attribute_stores(ctx, "C13-R2", [SP], floor=1)
     r5(ctx, cf)
-    # ---- R2/R3 C++ side
+    # ---- R2 / R3 / R4 / R5 C++ side: one generic iteration of every loop of asa_frame, by value
     af = cf.function(SC, "asa_frame")
-    g = C.guards(af)
-    body = C.body_of(af)
-    outer = [n for n in C.kids(body) if n["kind"] == "ForStmt"]
-    if not outer:
-        raise AnalysisError("asa_frame: outer atom loop not found")
-    outer = outer[0]
-    mask_refs = [n for n in C.walk(af) if n["kind"] == "DeclRefExpr" and n["referencedDecl"].get("name") == "atom_selection_mask"]
-    ctx.decide(len(mask_refs) == 1, "C13-R3", C.line(af), SC, "asa_frame", "the mask is read exactly once", "%d reference(s)" % len(mask_refs),
-               "atom_selection_mask is read %d times in asa_frame" % len(mask_refs))
-    # the single use: in_selection = mask[i]; if (in_selection == 0) continue;  at the top of the outer loop
-    top = C.kids(C.kids(outer)[-1])[:3]
-    ttxt = re.sub(r"\s", "", " ".join(C.text(x) if x["kind"] != "DeclStmt" else " ".join(v.get("name", "") + "=" + (C.text(C.kids(v)[-1]) if C.kids(v) else "") for v in C.kids(x)) for x in top))
-    ok = "in_selection=atom_selection_mask[i]" in ttxt
-    ifs_c = [n for n in C.kids(C.kids(outer)[-1]) if n["kind"] == "IfStmt" and "in_selection" in C.text(C.kids(n)[0])]
-    ok = ok and bool(ifs_c) and re.sub(r"\s", "", C.text(C.kids(ifs_c[0])[0])) == "(in_selection==0)" and C._always_leaves(C.kids(ifs_c[0])[1])
-    ctx.decide(ok, "C13-R2", C.line(outer), SC, "asa_frame", "unselected atom i is skipped as target (continue)", "", "the selection test at the top of the target loop changed: %s" % ttxt[:80])
-    # blocker loops: inner loops over j in [0, n_atoms) with no mask dependence
-    inner = [n for n in C.walk(C.kids(outer)[-1]) if n["kind"] == "ForStmt"]
-    nb = None
-    for lp in inner:
-        cond = re.sub(r"\s", "", C.text(C.kids(lp)[1]))
-        init = re.sub(r"\s", "", " ".join(v.get("name", "") + "=" + C.text(C.kids(v)[-1]) for v in C.kids(C.kids(lp)[0]) if v["kind"] == "VarDecl")) if C.kids(lp)[0]["kind"] == "DeclStmt" else ""
-        if cond == "(j<n_atoms)" and init == "j=0":
-            nb = lp
-            break
-    ctx.decide(nb is not None, "C13-R3", C.line(outer), SC, "asa_frame", "neighbour search over j = 0 .. n_atoms-1", "", "the neighbour loop no longer ranges over all atoms")
-    if nb is not None:
-        dep = [n for n in C.walk(nb) if n["kind"] == "DeclRefExpr" and n["referencedDecl"].get("name") in ("atom_selection_mask", "in_selection")]
-        ctx.decide(not dep, "C13-R3", C.line(nb), SC, "asa_frame", "neighbour loop independent of the selection", "", "the neighbour (blocker) loop depends on the selection mask: unselected atoms no longer shield selected ones")
-        skips = [re.sub(r"\s", "", C.text(C.kids(n)[0])) for n in C.walk(nb) if n["kind"] == "IfStmt" and C._always_leaves(C.kids(n)[1])]
-        ctx.decide(skips == ["(i==j)"], "C13-R3", C.line(nb), SC, "asa_frame", "only j == i is skipped as neighbour", "", "neighbour loop skips on %s" % skips)
+    asa_frame_by_value(ctx, cf)
 
     # ---- R4
     d = param_default(fn, "probe_radius")
     d2 = param_default(fn, "n_sphere_points")
     ctx.decide(const(d) == 0.14 and const(d2) == 960, "C13-R4", fn, SP, "shrake_rupley", "defaults probe 0.14 nm, 960 points", "", "defaults are %s / %s" % (const(d), const(d2)))
-    # area formula literals
-    cons = [n for n in C.walk(af) if n["kind"] == "VarDecl" and n.get("name") == "constant"]
-    ctext = re.sub(r"\s", "", C.text(C.kids(cons[0])[-1])) if cons else ""
-    mm = re.match(r"^\(\((4(?:\.0)?)\*(3\.14159\d*)\)/n_sphere_points\)$", ctext)
-    ok = bool(mm) and abs(float(mm.group(2)) - 3.141592653589793) < 1e-9
-    ctx.decide(ok, "C13-R4", C.line(cons[0]) if cons else C.line(af), SC, "asa_frame", "constant = 4*pi / n_sphere_points", "", "constant is %s" % (C.text(C.kids(cons[0])[-1]) if cons else None))
-    mul = [n for n in C.walk(af) if n["kind"] == "CompoundAssignOperator" and n.get("opcode") == "*=" and C.root_var(C.kids(n)[0])[0] == "areas"]
-    ok = bool(mul) and re.sub(r"\s", "", C.text(C.kids(mul[0])[1])) == "((constant*atom_radii[i])*atom_radii[i])"
-    ctx.decide(ok, "C13-R4", C.line(mul[0]) if mul else C.line(af), SC, "asa_frame", "area = count * constant * r_i^2", "", "final scaling is %s" % (C.text(C.kids(mul[0])[1]) if mul else None))
-    inc = [n for n in C.walk(af) if n["kind"] == "UnaryOperator" and n.get("opcode") == "++" and C.root_var(C.kids(n)[0])[0] == "areas"]
-    gi = C.guards(af).get(inc[0]["id"], []) if inc else []
-    ctx.decide(bool(inc) and ("is_accessible", True) in gi, "C13-R4", C.line(inc[0]) if inc else C.line(af), SC, "asa_frame", "a point counts iff it is accessible", "", "the accessible-point counter is not guarded by is_accessible")
     # accumulation into groups
     sf = cf.function(SC, "sasa")
     acc = [n for n in C.walk(sf) if n["kind"] == "CompoundAssignOperator" and n.get("opcode") == "+=" and C.root_var(C.kids(n)[0])[0] == "outframe"]
@@ -191,28 +149,6 @@ def r5(ctx, cf):
             okx = r_ok and same_phi and prod_ok and inc_ok
             why = "r ok %s, same angle in x and z %s, product form %s, angle = i*pi*(3-sqrt 5) %s" % (r_ok, same_phi, prod_ok, inc_ok)
     ctx.decide(okx, "C13-R5", C.line(fn), SC, "generate_sphere_points", "point i = (r cos phi, y, r sin phi), r = sqrt(1 - y^2), phi = i pi (3 - sqrt 5)", "", "the stored point is not on the golden-section spiral: %s" % why)
-    # neighbour pre-filter: exactly the atoms whose expanded spheres overlap
-    af = cf.function(SC, "asa_frame")
-    g = C.guards(af)
-    stores = [x for x in C.walk(af) if x["kind"] == "BinaryOperator" and x.get("opcode") == "=" and C.root_var(C.kids(x)[0])[0] == "neighbor_indices"]
-    if len(stores) != 1:
-        raise AnalysisError("asa_frame: store into neighbor_indices not found")
-    facts = sorted(set(g.get(stores[0]["id"], [])))
-    want = sorted({("(i==j)", False), ("in_selection", True), ("(r2<radius_cutoff2)", True)})
-    ctx.decide(facts == want, "C13-R5", C.line(stores[0]), SC, "asa_frame", "j is a blocker iff j != i and r2 < (R_i + R_j)^2", str(facts),
-               "atom j is recorded as a blocker under %s; every atom whose expanded sphere reaches into that of i must be kept (an enclosing sphere blocks all points)" % facts)
-    # the quantities in the test
-    pair = [x for x in C.walk(af) if x["kind"] == "ForStmt"]
-    inner = [x for x in C.walk(af) if x["kind"] == "ForStmt" and any(v.get("name") == "radius_cutoff2" for v in C.walk(x) if v["kind"] == "VarDecl")]
-    inner = inner[-1]
-    ib = [x for x in inner["inner"] if isinstance(x, dict) and x.get("kind") == "CompoundStmt"][0]
-    decls = {}
-    for v in C.walk(ib):
-        if v["kind"] == "VarDecl" and C.kids(v):
-            decls[v.get("name")] = re.sub(r"\s", "", C.text(C.kids(v)[-1]))
-    ok = decls.get("radius_cutoff") == "(atom_radius_i+atom_radius_j)" and decls.get("radius_cutoff2") == "(radius_cutoff*radius_cutoff)" and \
-        decls.get("r2") == "dot3(r_ij,r_ij)" and decls.get("r_ij") == "(r_i-r_j)" and decls.get("atom_radius_j") == "atom_radii[j]"
-    ctx.decide(ok, "C13-R5", C.line(inner), SC, "asa_frame", "r2 = |r_i - r_j|^2, cutoff = (R_i + R_j)^2", "", "pre-filter quantities are %s" % {k: decls.get(k) for k in ("radius_cutoff", "radius_cutoff2", "r2", "r_ij", "atom_radius_j")})
 
 
 def _sasa_roles(ctx, cf):
@@ -359,3 +295,191 @@ def _shrake_rupley_by_evaluation(ctx, cf):
             ctx.undecided("C13-R4", fn, SP, q, what, "not evaluable: %s" % e)
     if n_cfg < 10:
         ctx.undecided("C13-R4", fn, SP, q, "configurations", "only %d of 10 configurations evaluated" % n_cfg)
+
+
+def asa_frame_by_value(ctx, cf):
+    """asa_frame evaluated by value numbering (sa/symval.py) for one generic iteration of each of its loops.  The parameters are taken by
+    position (frame, n_atoms, radii, sphere points, n_sphere_points, neighbour buffer, centred-points buffer, selection mask, areas); the
+    conditions met on each path are decoded from their values, so neither the names of the locals nor the way a test is spelt matter.
+      R2  a target atom is skipped iff its mask entry is 0
+      R3/R5  atom j is recorded as a blocker iff j != i and |x_i - x_j|^2 < (R_i + R_j)^2 - whatever the mask says about j
+      R4  a quadrature point p = x_i + R_i * s counts iff it is outside the sphere of the blocker examined (|p - x_b|^2 >= R_b^2), and
+          the area is count * (4 pi / n_sphere_points) * R_i^2"""
+    from ..symval import SymExec, State, Unsupported, elementary_facts, has_fact
+    from ..poly import Poly, Rat
+    af = cf.function(SC, "asa_frame")
+    ctx.analysed_functions.add(SC + ":asa_frame")
+    q = "asa_frame"
+    P = [p_.get("name") for p_ in C.fparams(af)]
+    if len(P) != 9:
+        raise AnalysisError("asa_frame: %d parameters (9 expected)" % len(P))
+    frame, n_atoms, radii, sphere, n_sphere, nbr, centred, mask, areas = P
+    lvs = set()
+    for n in C.walk(af):
+        if n["kind"] == "ForStmt":
+            init = [x for x in n.get("inner", []) if isinstance(x, dict) and "kind" in x]
+            if init and init[0].get("kind") == "DeclStmt":
+                lvs |= {v.get("name") for v in C.kids(init[0]) if v["kind"] == "VarDecl"}
+            elif init and init[0].get("kind") == "BinaryOperator":
+                lvs.add(C.ref_name(C.kids(init[0])[0]))
+    body = C.kids(C.body_of(af))
+    outer = [n for n in body if n["kind"] == "ForStmt"]
+    if len(outer) != 1:
+        raise AnalysisError("asa_frame: one outer loop over the atoms expected, %d found" % len(outer))
+    ex = SymExec(cf, SC, symbolic_loops=lvs)
+    try:
+        states = ex.run(body, State())
+    except Unsupported as e:
+        for r_ in ("C13-R2", "C13-R3", "C13-R4", "C13-R5"):
+            ctx.undecided(r_, C.line(af), SC, q, "value numbering of asa_frame", str(e))
+        return
+    if not ex.loops_seen:
+        raise AnalysisError("asa_frame: no loop met")
+    iv = ex.loops_seen[0][0]
+    heads = {(lv, cond) for lv, _i, cond in ex.loops_seen}
+    var = lambda n_: Rat(Poly.var(n_))     # noqa: E731
+    i = var(iv)
+    line = C.line(outer[0])
+
+    def facts(st):
+        out = []
+        for (v, pol), (txt, _p) in zip(st.cexprs, st.cvals):
+            out += elementary_facts(ex, v if v is not None else txt, pol)
+        return out
+
+    def mem(base, off):
+        return var("%s[%s]" % (base, off if isinstance(off, str) else repr(off)))
+    m_i = mem(mask, i)
+    skipped = [st for st in states if has_fact(facts(st), "==", m_i)]
+    kept = [st for st in states if st not in skipped]
+    a_i = mem(areas, i)
+    ok = bool(skipped) and bool(kept) and all(not any(isinstance(k, tuple) and k[0] in (areas, nbr, centred) for k in st.env) for st in skipped) and all(has_fact(facts(st), "!=", m_i) for st in kept)
+    ctx.decide(ok, "C13-R2", line, SC, q, "atom i is skipped as a target iff %s[i] == 0 (nothing is written for it)" % mask, "%d paths skip, %d compute" % (len(skipped), len(kept)),
+               "the paths of one iteration of the target loop are not split by `%s[i] == 0` into 'nothing written' and 'area computed' (%d / %d paths)" % (mask, len(skipped), len(kept)))
+    # ---- blockers: the loop over all atoms
+    want_heads = {c for (lv, c) in heads}
+    all_atoms = [c for (lv, c) in heads if re.sub(r"\s", "", c) in ("(%s<%s)" % (lv, n_atoms),)]
+    ctx.decide(len(all_atoms) >= 2, "C13-R3", line, SC, q, "target loop and neighbour loop range over all %s atoms" % n_atoms, "", "loop bounds met: %s" % sorted(want_heads))
+    # the generic neighbour j: the value stored into the neighbour buffer
+    stored = {}
+    for st in kept:
+        for k, v in st.env.items():
+            if isinstance(k, tuple) and k[0] == nbr and isinstance(v, Rat) and k[1] in (0, "0"):
+                stored[id(st)] = v
+    js = {repr(v) for v in stored.values()}
+    if len(js) != 1:
+        ctx.undecided("C13-R5", line, SC, q, "blocker pre-filter", "the value stored into %s[0] on the paths of a generic iteration is %s" % (nbr, sorted(js)))
+    else:
+        j = next(iter(stored.values()))
+        R = lambda x: mem(radii, x)        # noqa: E731
+        X = lambda a_, c: mem(frame, 3 * a_ + c)    # noqa: E731
+        D = sum(((X(i, c) - X(j, c)) * (X(i, c) - X(j, c)) for c in range(3)), Rat(Poly.const(0)))
+        cut = (R(i) + R(j)) * (R(i) + R(j))
+        bad = None
+        mask_dep = False
+        for st in kept:
+            f = facts(st)
+            near = has_fact(f, "<", D - cut)
+            far = has_fact(f, "<=", cut - D)
+            same = has_fact(f, "==", i - j)
+            diff = has_fact(f, "!=", i - j)
+            is_stored = id(st) in stored
+            if is_stored and not (near and diff):
+                bad = bad or "a path records j as a blocker without having established j != i and |x_i - x_j|^2 < (R_i + R_j)^2 (conditions on the path: %s)" % [t for t, _p in st.cvals][:4]
+            if not is_stored and not (same or far):
+                bad = bad or "a path leaves j out although neither j == i nor |x_i - x_j|^2 >= (R_i + R_j)^2 holds on it (conditions: %s)" % [(t[:60], p_) for t, p_ in st.cvals][:4]
+
+            def flat(fs):
+                for ff_ in fs:
+                    if ff_[0] == "or":
+                        for alt in ff_[1]:
+                            yield from flat(alt)
+                    else:
+                        yield ff_
+            mname = "%s[" % mask
+            if any(str(x).startswith(mname) and str(x) != str(m_i) for ff_ in flat(f) for x in ff_[1].vars()):
+                mask_dep = True
+        ctx.decide(not mask_dep, "C13-R3", line, SC, q, "the blocker test does not depend on the selection", "",
+                   "whether j is recorded as a blocker depends on the selection mask of j: unselected atoms no longer shield selected ones")
+        ctx.decide(bad is None and bool(stored), "C13-R5", line, SC, q, "j is a blocker iff j != i and |x_i - x_j|^2 < (R_i + R_j)^2", "%d paths" % len(kept), bad or "no path stores into the neighbour buffer")
+    # ---- accessibility and area
+    c4pi = None
+    bad = None
+    n_acc = n_blk = 0
+    for st in kept:
+        v = st.env.get((areas, repr(i)))
+        if v is None:
+            bad = bad or "a path of a selected atom does not write %s[i]" % areas
+            continue
+        Ri2 = mem(radii, i) * mem(radii, i)
+        # v = c * (areas[i] + delta) * R_i^2
+        pv = None
+        if len(v.d.t) == 1:
+            (mono, cq), = v.d.t.items()
+            if tuple(mono) == ((n_sphere, 1),):
+                pv = (Rat(v.n) * (Rat(Poly.const(1)) / cq)).poly()
+        if pv is None:
+            bad = bad or "area is %r" % v
+            continue
+        c1 = pv.coeff_of("%s[%s]" % (areas, repr(i)), 1)
+        c0 = pv.coeff_of("%s[%s]" % (areas, repr(i)), 0)
+        scale = Rat(c1)         # = constant * n_sphere_points * R_i^2
+        delta = None
+        for d_ in (0, 1):
+            if Rat(c0) == scale * d_:
+                delta = d_
+        if delta is None:
+            bad = bad or "area of atom i is %r, not count * constant * R_i^2" % v
+            continue
+        k_ = None
+        ps_ = scale.poly()
+        if ps_ is not None:
+            kk = ps_.coeff_of("%s[%s]" % (radii, repr(i)), 2).const_value()
+            if kk is not None and scale == Ri2 * kk:
+                k_ = kk
+        if k_ is None or abs(float(k_) - 4 * 3.141592653589793) > 1e-6:
+            bad = bad or "area = count * %r: the constant is not 4*pi / %s times R_i^2" % (scale, n_sphere)
+            continue
+        c4pi = k_
+        f = facts(st)
+        # the blocker examined: any atom index read from the neighbour buffer
+        def nbr_reads(ff):
+            """the symbols `<neighbour buffer>[...]` that occur (possibly nested in other subscripts) in the fact"""
+            out_ = set()
+            for x in ff[1].vars():
+                t_ = str(x)
+                p0 = t_.find(nbr + "[")
+                while p0 >= 0:
+                    depth_, p1 = 0, p0 + len(nbr)
+                    while p1 < len(t_):
+                        depth_ += t_[p1] == "["
+                        depth_ -= t_[p1] == "]"
+                        p1 += 1
+                        if depth_ == 0:
+                            break
+                    out_.add(t_[p0:p1])
+                    p0 = t_.find(nbr + "[", p1)
+            return sorted(out_)
+        inside = [ff for ff in f if ff[0] == "<" and nbr_reads(ff)]
+        outside = [ff for ff in f if ff[0] == "<=" and nbr_reads(ff)]
+        okp = False
+        for ff in (outside if delta == 1 else inside):
+            bvars = nbr_reads(ff)
+            for bn in bvars:
+                b = var(bn)
+                jj = [x for x in lvs if any(("%s[3*%s]" % (sphere, x)) == str(y) or str(y).startswith("%s[" % sphere) and x in str(y) for y in ff[1].vars())]
+                for jn in (jj or list(lvs)):
+                    pj = [mem(frame, 3 * i + c) + mem(radii, i) * mem(sphere, 3 * var(jn) + c) for c in range(3)]
+                    Dp = sum(((pj[c] - mem(frame, 3 * b + c)) * (pj[c] - mem(frame, 3 * b + c)) for c in range(3)), Rat(Poly.const(0)))
+                    rb2 = mem(radii, b) * mem(radii, b)
+                    if (delta == 1 and ff[1] == rb2 - Dp) or (delta == 0 and ff[1] == Dp - rb2):
+                        okp = True
+        if delta == 1:
+            n_acc += 1
+        else:
+            n_blk += 1
+        if not okp:
+            bad = bad or "a point is %s on a path where |x_i + R_i s_j - x_b|^2 %s R_b^2 was not established for the blocker b examined (conditions: %s)" % (
+                "counted" if delta == 1 else "not counted", ">=" if delta == 1 else "<", [t[:50] for t, _p in st.cvals][-2:])
+    ctx.decide(bad is None and n_acc > 0 and n_blk > 0, "C13-R4", line, SC, q, "area_i = (number of points of the sphere of i, x_i + R_i s, outside the blocker examined) * 4 pi / %s * R_i^2" % n_sphere,
+               "%d counting / %d blocked paths" % (n_acc, n_blk), bad or "counting paths %d, blocked paths %d" % (n_acc, n_blk))
